@@ -1,21 +1,97 @@
+// simctl is the coordinator of the C18 deterministic simulation: it
+// instruments the working tree of the repository into a scratch copy, builds
+// the worker twice (plain and -race), fans seeded batches out to worker
+// processes, confirms / minimises / records violations, and writes evidence.
 package main
 
 import (
+	"flag"
 	"fmt"
 	"os"
+	"strconv"
 
 	"rtcpverif/sim/instrument"
 )
 
+func verifSeed() uint64 {
+	if v := os.Getenv("VERIF_SEED"); v != "" {
+		if n, err := strconv.ParseUint(v, 10, 64); err == nil {
+			return n
+		}
+		if n, err := strconv.ParseInt(v, 10, 64); err == nil {
+			return uint64(n)
+		}
+	}
+	return 20261004
+}
+
+var (
+	evidenceOut = ""
+	replaysDir  = ""
+)
+
 func main() {
-	if len(os.Args) >= 4 && os.Args[1] == "instrument" {
+	if len(os.Args) < 2 {
+		fmt.Fprintln(os.Stderr, "usage: simctl check|replay|selftest|mutants|instrument ...")
+		os.Exit(2)
+	}
+	switch os.Args[1] {
+	case "instrument":
+		if len(os.Args) < 4 {
+			os.Exit(2)
+		}
 		d, err := instrument.Run(os.Args[2], os.Args[3])
 		if err != nil {
 			fmt.Fprintln(os.Stderr, err)
 			os.Exit(2)
 		}
 		fmt.Printf("files=%d sites=%d op_only=%v pkgvars=%v blocking=%v\n", d.Files, d.Sites, d.OpOnly, d.PkgVars, d.BlockingSync)
-		return
+	case "check":
+		fs := flag.NewFlagSet("check", flag.ExitOnError)
+		prop := fs.String("property", "C18", "property id")
+		tier := fs.String("tier", "", "quick|thorough (default: $VERIF_TIER or quick)")
+		repo := fs.String("repo", "/repo", "repository working tree")
+		fs.StringVar(&evidenceOut, "evidence-out", "", "write evidence here instead of /verif/evidence/C18.json")
+		fs.StringVar(&replaysDir, "replays-dir", "", "write replay files here instead of /verif/replays")
+		_ = fs.Parse(os.Args[2:])
+		if *prop != "C18" {
+			fmt.Fprintf(os.Stderr, "property %s is not decided by this machinery (see MANIFEST not_applicable)\n", *prop)
+			os.Exit(2)
+		}
+		t := *tier
+		if t == "" {
+			t = os.Getenv("VERIF_TIER")
+		}
+		if t != "thorough" {
+			t = "quick"
+		}
+		os.Exit(checkC18(*repo, t, verifSeed()))
+	case "replay":
+		fs := flag.NewFlagSet("replay", flag.ExitOnError)
+		repo := fs.String("repo", "/repo", "repository working tree")
+		_ = fs.Parse(os.Args[2:])
+		if fs.NArg() < 1 {
+			fmt.Fprintln(os.Stderr, "usage: simctl replay [--repo dir] <file>")
+			os.Exit(2)
+		}
+		os.Exit(replayCmd(*repo, fs.Arg(0)))
+	case "selftest":
+		fs := flag.NewFlagSet("selftest", flag.ExitOnError)
+		repo := fs.String("repo", "/repo", "repository working tree")
+		seeds := fs.Int("seeds", 40, "number of batch seeds")
+		_ = fs.Parse(os.Args[2:])
+		os.Exit(selftest(*repo, *seeds))
+	case "mutants":
+		fs := flag.NewFlagSet("mutants", flag.ExitOnError)
+		repo := fs.String("repo", "/repo", "repository working tree")
+		dir := fs.String("dir", "", "directory with *.diff files (default /verif/mutants)")
+		only := fs.String("only", "", "substring filter on mutant names")
+		tier := fs.String("tier", "quick", "tier to run against each mutant")
+		tests := fs.Bool("tests", true, "also run the repository's own tests on each mutant")
+		_ = fs.Parse(os.Args[2:])
+		os.Exit(mutantsCmd(*repo, *dir, *only, *tier, *tests))
+	default:
+		fmt.Fprintln(os.Stderr, "unknown command", os.Args[1])
+		os.Exit(2)
 	}
-	os.Exit(2)
 }
